@@ -101,6 +101,12 @@ CYCLES = {
     # a select whose other clause is a channel that never sees traffic: the entry it leaves there is dropped by the
     # next waiter that queues on that channel, not kept (with the finished task it pins) for ever (finding 78)
     "select-loser-on-a-quiet-channel": "(let [a (ev/chan) t (ev/spawn (ev/select a QUIET))] (ev/sleep 0) (ev/give a 1) (ev/sleep 0))",
+    # a pipe made while nothing else runs, then an unrelated child that outlives the transfer: the reader sees the end
+    # when the writer closes (the child holds no copy of the write end), well before the child exits
+    "pipe-eof-not-held-up-by-a-sibling-child": "(let [[r w] (os/pipe) p (os/spawn [\"sim-child\" \"s40\" \"x0\"] :p)] (ev/spawn (ev/write w \"hello\") (:close w)) (ev/with-deadline 0.02 (ev/read r :all)) (:close r) (os/proc-wait p))",
+    # a signal handler that replaces another one releases it
+    "sigaction-replaced-then-removed": "(do (os/sigaction :usr2 (fn [&] (string/repeat \"a\" 10)) true) (os/sigaction :usr2 (fn [&] (string/repeat \"b\" 10)) true) (os/sigaction :usr2 nil))",
+    "sigaction-replaced-thrice": "(do (os/sigaction :usr1 (fn [&] 1)) (os/sigaction :usr1 (fn [&] 2)) (os/sigaction :usr1 (fn [&] 3)) (os/sigaction :usr1))",
     "thread-chan-cancelled-giver-then-close": "(let [c (ev/thread-chan 0) f (ev/spawn (protect (ev/give c 1)))] (ev/sleep 0) (ev/cancel f :stop) (ev/sleep 0) (ev/chan-close c))",
     "chan-cancelled-waiter-then-close": "(let [c (ev/chan 0) f (ev/spawn (protect (ev/take c)))] (ev/sleep 0) (ev/cancel f :stop) (ev/sleep 0) (ev/chan-close c))",
     "spawn-file-redirect": "(let [f (file/open \"/dev/null\" :w) p (os/spawn [\"sim-child\" \"w10\" \"x0\"] :p {:out f})] (os/proc-wait p) (os/proc-close p) (file/close f))",
